@@ -367,5 +367,133 @@ theorem segsFold_secInv (hdrPhoff : BitVec 64) (phentsize phnum : BitVec 16) (l 
         have hsi1 := layoutSegment_secInv hdrPhoff phentsize phnum lay g B G hgG hga (by omega) hinv hgv hgl hsi lay1 g1 hs
         exact ih lay1 (B + 1099511627776) hrest (by omega) hinv1 hsi1 _ lay' done' h
 
+/-- every section pass 3 returns is an input section, or an input section with `set_offset` applied
+    at a cursor value not beyond the final cursor -/
+theorem looseSpec_mem (c : Cls) (segs : List Seg) (l : List SecBuf) (i : Nat) (pos : BitVec 64)
+    (hnw : looseNW c segs l i pos = true) :
+    ∀ s' ∈ (looseSpec c segs l i pos).1, ∃ s ∈ l, s' = s ∨
+      ∃ p : BitVec 64, s' = setOffset c s p ∧ p.toNat ≤ (looseSpec c segs l i pos).2.toNat := by
+  induction l generalizing i pos with
+  | nil => intro s' hs'; simp [looseSpec] at hs'
+  | cons s rest ih =>
+    by_cases hw : withoutSegment segs i = true
+    · unfold looseNW at hnw
+      simp only [hw, if_true, Bool.and_eq_true, decide_eq_true_eq] at hnw
+      obtain ⟨⟨⟨h01, h12⟩, -⟩, hrest⟩ := hnw
+      unfold looseSpec
+      simp only [hw, if_true, (setOffset_moved c s _).stype, (setOffset_moved c s _).size]
+      generalize (if lsws_need_align s.addrAlign pos then lsws_aligned pos s.addrAlign else pos) = pos1 at *
+      generalize (if lsws_occupies s.stype then wsd_advance pos1 s.size else pos1) = pos2 at *
+      have hm := (looseSpec_facts c segs rest (i + 1) pos2 hrest).2.1
+      intro s' hs'
+      rcases List.mem_cons.1 hs' with rfl | hs'
+      · exact ⟨s, List.mem_cons_self .., Or.inr ⟨pos1, rfl, by omega⟩⟩
+      · obtain ⟨t, ht, h⟩ := ih (i + 1) pos2 hrest s' hs'
+        exact ⟨t, List.mem_cons_of_mem _ ht, h⟩
+    · have hw' : withoutSegment segs i = false := by simpa using hw
+      unfold looseNW at hnw
+      simp only [hw', Bool.false_eq_true, if_false] at hnw
+      unfold looseSpec
+      simp only [hw', Bool.false_eq_true, if_false]
+      intro s' hs'
+      rcases List.mem_cons.1 hs' with rfl | hs'
+      · exact ⟨s', List.mem_cons_self .., Or.inl rfl⟩
+      · obtain ⟨t, ht, h⟩ := ih (i + 1) pos hnw s' hs'
+        exact ⟨t, List.mem_cons_of_mem _ ht, h⟩
+
 end Small
+
+/-- input bounds on addresses and offsets (beyond `SmallObject`): addresses and offsets below `2^62`;
+    a section with index 0 or of type SHT_NULL (never given an offset by the writer) has offset 0;
+    segment `vaddr` below `2^62`, fewer than `2^16` members -/
+def SmallAddrs2 (o : Obj) : Prop :=
+  (∀ s ∈ o.secs, s.addr.toNat < 4611686018427387904 ∧ s.offset.toNat < 4611686018427387904 ∧
+    ((s.index = 0 ∨ wsd_is_null s.stype = true) → s.offset = 0)) ∧
+  (∀ g ∈ o.segs, g.vaddr.toNat < 4611686018427387904 ∧ g.secs.length < 65536)
+
+/-- **Section half of `noWrap64InB` from closed-form bounds**: in the result of the layout of a small
+    object with small addresses, `addr + size` and `offset + size` of every section stay below `2^64`
+    (indeed `addr < 2^63`, `offset ≤ 2^62`, `size < 2^40`). -/
+theorem smallObject_sections_noWrap (o : Obj) (h : Bytes) (res : LayoutRes)
+    (hl : layoutOf o h = .ok (some res)) (hs : SmallObject o) (ha : SmallAddrs2 o) :
+    ∀ b ∈ res.secs, b.addr.toNat + b.size.toNat < 18446744073709551616 ∧
+      b.offset.toNat + b.size.toNat < 18446744073709551616 := by
+  have hnwAll := smallObject_layoutNW o h hs
+  obtain ⟨hc, hnsec, hnseg, hsz, hseg⟩ := hs
+  obtain ⟨hsa, hga⟩ := ha
+  obtain ⟨-, hpos0, hm, ho, hfold, -, hloose, -⟩ := layoutOf_parts o h res hl
+  have hp0 : res.pos0.toNat < 8589934592 := by rw [hpos0]; exact Small.save_cursor0_lt _ _ _
+  have hsegs0 := Small.mapM_calcSegAlign_small o.secs (fun s hs => (hsz s hs).2) o.segs res.segs0 hm
+    (fun g hg => (hseg g hg).1)
+  have hperm := orderedSegments_perm _ _ ho
+  have hlen0 : res.segs0.length = o.segs.length := by
+    have := congrArg List.length (mapM_calcSegAlign o.secs o.segs res.segs0 hm).1
+    simpa using this
+  have hlen : res.ordered.length < 65536 := by rw [hperm.length_eq, hlen0]; exact hnseg
+  have hinv0 : Small.SmallInv 144115196665790464 res.ordered (lay0Of o res.pos0) := by
+    refine ⟨?_, hnsec, ?_, ?_⟩
+    · simp only [lay0Of, List.count_replicate_self]
+      have := Nat.mod_lt o.secs.length (show 0 < 65536 by decide)
+      omega
+    · intro k s hk; exact hsz s (List.mem_of_getElem? hk)
+    · intro g hg idx hidx s hsx _ has
+      obtain ⟨⟨g0, hg0, he⟩, -⟩ := hsegs0 g (hperm.mem_iff.1 hg)
+      have hsecs : g.secs = g0.secs := by rw [he]
+      have hv : g.vaddr = g0.vaddr := by rw [he]
+      rw [hv]
+      exact (hseg g0 hg0).2 idx (hsecs ▸ hidx) s hsx has
+  have hsi0 : Small.SecInv (lay0Of o res.pos0) := by
+    refine ⟨?_, ?_, ?_⟩
+    · intro k s hk; have := (hsa s (List.mem_of_getElem? hk)).2.1; omega
+    · intro k s hk; have := (hsa s (List.mem_of_getElem? hk)).1; omega
+    · intro k s hk hg
+      simp only [lay0Of] at hk hg ⊢
+      rcases hg with hg | hg
+      · exfalso
+        rw [List.getElem?_replicate] at hg
+        split at hg <;> simp at hg
+      · rw [(hsa s (List.mem_of_getElem? hk)).2.2 hg]; simp
+  have hlo : ∀ g ∈ res.ordered, g ∈ res.ordered ∧ g.align.toNat < 1099511627776 ∧
+      g.vaddr.toNat < 4611686018427387904 ∧ g.secs.length < 65536 := by
+    intro g hg
+    obtain ⟨⟨g0, hg0, he⟩, hal⟩ := hsegs0 g (hperm.mem_iff.1 hg)
+    have hsecs : g.secs = g0.secs := by rw [he]
+    have hv : g.vaddr = g0.vaddr := by rw [he]
+    rw [hsecs, hv]
+    exact ⟨hg, hal, (hga g0 hg0).1, (hga g0 hg0).2⟩
+  have hinv2' := (Small.segsNW_of_bound o.cls (Hdr.e_phoff o.cls o.enc res.hdr0)
+    (Hdr.e_phentsize o.cls o.enc res.hdr0) (Hdr.e_phnum o.cls o.enc res.hdr0) res.ordered
+    (lay0Of o res.pos0) 144115196665790464 res.ordered hc (fun g hg => ⟨(hlo g hg).1, (hlo g hg).2.1⟩)
+    (by omega) hinv0).2 [] res.lay2 res.done hfold
+  rw [hc] at hfold
+  have hsi2 := Small.segsFold_secInv _ _ _ res.ordered (lay0Of o res.pos0) 144115196665790464 res.ordered
+    hlo (by omega) hinv0 hsi0 [] res.lay2 res.done hfold
+  have hpot2 := hinv2'.pot
+  have hlen2 := hinv2'.len
+  obtain ⟨hnw3, hpos3⟩ := Small.looseNW_of_bound o.cls res.segs res.lay2.secs 0 res.lay2.pos
+    360287978779574272 hc
+    (fun s hs => by
+      obtain ⟨k, hk⟩ := List.getElem?_of_mem hs
+      exact hinv2'.sz k s hk)
+    (by omega) (by omega)
+  rw [layoutLoose_eq_spec] at hloose
+  have hsecs : res.secs = (looseSpec o.cls res.segs res.lay2.secs 0 res.lay2.pos).1 := by
+    have := (Prod.mk.inj hloose).1
+    simpa using this
+  intro b hb
+  rw [hsecs] at hb
+  obtain ⟨s, hsl, hcase⟩ := Small.looseSpec_mem o.cls res.segs res.lay2.secs 0 res.lay2.pos hnw3 b hb
+  obtain ⟨k, hk⟩ := List.getElem?_of_mem hsl
+  have h1 := hsi2.off k s hk
+  have h2 := hsi2.adr k s hk
+  have h3 := (hinv2'.sz k s hk).1
+  rcases hcase with rfl | ⟨p, rfl, hp⟩
+  · omega
+  · rw [hc] at hp hpos3 ⊢
+    obtain ⟨a1, -, -, a4⟩ := Small.setOffset_c64 s p
+    rw [a1, (setOffset_moved .c64 s p).size]
+    rcases a4 with ⟨-, e⟩ | ⟨-, e⟩
+    · rw [e]; omega
+    · rw [e]; omega
+
 end ElfioVerif
